@@ -624,9 +624,10 @@ impl<'a, 't> Gen<'a, 't> {
         if elem.unwrap && !self.t.chance(30) {
             elem.unwrap = false;
         }
-        let content = match self.t.below(4) {
+        let content = match self.t.below(5) {
             0 => String::new(),
             1 => format!(" {} ", self.word_left()),
+            2 if self.o.ascii_left => format!("{}\t{}", self.word_left(), self.word_left()),
             _ => self.word_left(),
         };
         let post = if self.t.chance(60) { self.after_tag() } else { String::new() };
